@@ -41,7 +41,7 @@ m = {
     ],
     "checks": checks,
     "not_applicable": na,
-    "notes": "Driver: ./check <ID> --tier quick|thorough [--replay f]; VERIF_SEED selects the PRNG seeds; exit 0 held / 1 violation / 2 inconclusive. known_findings.json lists recorded and fixed defects. See DESIGN.md.",
+    "notes": "Driver: ./check <ID> --tier quick|thorough [--replay f]; VERIF_SEED selects the PRNG seeds; exit 0 held / 1 violation / 2 inconclusive. known_findings.json lists recorded and fixed defects (a listed finding prints one KNOWN-FINDING line from its own replay; its input class is excluded from generation and counted in evidence). DESIGN.md section 8 describes what was built, what it found and which seeded changes (seeded/) each check catches.",
 }
 json.dump(m, open(os.path.join(os.path.dirname(__file__), "MANIFEST.json"), "w"), indent=1)
 print("checks:", [c["property_id"] for c in checks], "not_applicable:", [x["property_id"] for x in na])
